@@ -32,16 +32,16 @@ for f in $(find "$seed/demo" -name '*_test.go' 2>/dev/null); do
   rm -f "$place"
 done
 [ $demo_ok = 1 ] || echo "CONFIRM: demonstration NOT confirmed"
-# checks against /repo itself
+# checks against /repo itself (SKIP_CHECKS=1: confirmation only, /repo is not touched)
+[ "${SKIP_CHECKS:-0}" = 1 ] && exit 0
 cd /verif
 if ! git -C /repo diff --quiet; then echo "refusing: /repo has uncommitted changes"; exit 3; fi
 git -C /repo apply "$seed/patch.diff" || exit 3
 caught=""
 ev=$(mktemp -d "${TMPDIR:-/tmp}/seedev.XXXXXX"); cp /verif/known_findings.json "$ev/"
-for p in $(/verif/bin/mltlint -list); do
-  out=$(MLTLINT_VERIF=$ev /verif/bin/mltlint -property "$p" 2>&1); rc=$?
-  if [ $rc -ne 0 ]; then caught="$caught $p(rc=$rc)"; echo "$out" | grep -v "^VIOLATION\|^KNOWN\|^info" | head -4 | cut -c1-260; fi
-done
+MLTLINT_VERIF=$ev /verif/bin/mltlint -all > "$ev/all.out" 2>&1
+caught=$(grep "^RESULT" "$ev/all.out" | grep -v "rc=0" | sed 's/RESULT //;s/ rc=/(rc=/;s/$/)/' | tr '\n' ' ')
+grep -v "^VIOLATION\|^KNOWN\|^info\|^RESULT\|quick: .* 0 violations, 0 undecided" "$ev/all.out" | head -6 | cut -c1-260
 git -C /repo checkout -- .
 rm -rf "$ev"
 echo "CHECKS-REPORTING:${caught:- none}"
